@@ -4,15 +4,16 @@ From Coq Require Import List NArith String Ascii.
 Require Import Bebop.front.Tok Bebop.front.Parse Bebop.front.Fmt.
 Import ListNotations.
 
-(* ---- "denotes the same schema; only the attachment of doc comments may differ" ---- *)
+(* ---- "denotes the same schema; only the attachment of doc comments may differ" ----
+   Field tags are erased with the comments: they are written as doc comments of a fixed shape and follow their attachment. *)
 Definition nc_field (f : field) : field :=
-  {| f_type := f_type f; f_name := f_name f; f_comment := []; f_tags := f_tags f; f_depmsg := f_depmsg f; f_dep := f_dep f |}.
+  {| f_type := f_type f; f_name := f_name f; f_comment := []; f_tags := []; f_depmsg := f_depmsg f; f_dep := f_dep f |}.
 Definition nc_struct (s : struct_) : struct_ :=
   {| s_name := s_name s; s_comment := []; s_fields := map nc_field (s_fields s); s_opcode := s_opcode s; s_readonly := s_readonly s |}.
 Definition nc_message (m : message) : message :=
   {| m_name := m_name m; m_comment := []; m_fields := map (fun p => (fst p, nc_field (snd p))) (m_fields m); m_opcode := m_opcode m |}.
 Definition nc_ufield (u : ufield) : ufield :=
-  {| u_msg := option_map nc_message (u_msg u); u_struct := option_map nc_struct (u_struct u); u_tags := u_tags u; u_depmsg := u_depmsg u; u_dep := u_dep u |}.
+  {| u_msg := option_map nc_message (u_msg u); u_struct := option_map nc_struct (u_struct u); u_tags := []; u_depmsg := u_depmsg u; u_dep := u_dep u |}.
 Definition nc_union (u : union_) : union_ :=
   {| un_name := un_name u; un_comment := []; un_fields := map (fun p => (fst p, nc_ufield (snd p))) (un_fields u); un_opcode := un_opcode u |}.
 Definition nc_opt (o : enumopt) : enumopt :=
